@@ -71,6 +71,7 @@ fn hist() {
 fn unit() {
     let stdin = std::io::stdin();
     let mut m = SymbolMap::new();
+    let mut marks: Vec<usize> = Vec::new();
     for line in stdin.lock().lines() {
         let line = line.unwrap();
         let toks: Vec<&str> = line.split_whitespace().collect();
@@ -80,7 +81,20 @@ fn unit() {
         match toks[0] {
             "reset" => {
                 m = SymbolMap::new();
+                marks.clear();
                 println!("reset");
+            }
+            // `mark` remembers the current length (what the engine does before a build), `rollbackmark`
+            // rolls back to the most recent mark (what it does when the build fails)
+            "mark" => {
+                marks.push(m.len());
+                println!("{}", m.len());
+            }
+            "rollbackmark" => {
+                if let Some(k) = marks.pop() {
+                    m.roll_back(k);
+                }
+                println!("ok");
             }
             "add" => {
                 let i = m.add(&toks[1].into());
@@ -97,6 +111,12 @@ fn unit() {
             }
             "free" => {
                 m.verif_push_free(toks[1].parse().unwrap());
+                println!("ok");
+            }
+            "recycle" => {
+                // `recycle k1 k2 …`: a recycler run in which the listed shadowed slots turned out to be live
+                let live: Vec<usize> = toks[1..].iter().filter_map(|t| t.parse().ok()).collect();
+                m.verif_recycle(&live);
                 println!("ok");
             }
             "state" => {
